@@ -51,6 +51,14 @@ def mk_script(case):
 
 def t0_record(case, use_probe):
     script = mk_script(case)
+    if case.get("route") == "cgmap":
+        # the documented coarse-graining route with the identity index map: same system, same processing modes
+        from strengths import simulate_script
+        ns, nc = case["shape"]
+        lc.announce("simulate_script cgmap=identity %s isp=%s seed=%d state=%r" % (case["engine"], case["isp"], case["seed"], case["state"]))
+        out = simulate_script(script, eng.make_engine(case["engine"]), cgmap=list(range(nc)))
+        t, d = models.traj_arrays(out)
+        return t, d, None, None, False
     pr = probe() if use_probe else False
     if pr:
         pr.clear()
@@ -77,6 +85,8 @@ def check_case(case):
     if isp == "auto":
         mode = "redist" if stochastic else "none"
     try:
+        if case.get("window"):
+            return check_window(case, mode)
         t, d, plog, nlog, probed = t0_record(case, use_probe=(mode == "Poisson"))
     except Exception as e:
         return [("C14:%s:unexpected-exception" % mode, "%s: %s" % (type(e).__name__, e))]
@@ -84,9 +94,11 @@ def check_case(case):
         return [("C14:%s:no-t0-record" % mode, "times %r" % (t,))]
     y = d[0]
     tag = "%s:%s" % (mode, engine)
+    if case.get("route") == "cgmap":
+        tag += ":cgmap"
     if mode == "none":
         if y != x:
-            out.append(("C14:none:%s:not-passed-through" % engine, "state %r recorded as %r" % (x, y)))
+            out.append(("C14:none:%s:not-passed-through" % tag.split(":", 1)[1], "state %r recorded as %r" % (x, y)))
         return out
     # stochastic modes: non-negative integers, zero stays zero
     if any(v < 0 or v != math.floor(v) for v in y):
@@ -134,6 +146,33 @@ def check_case(case):
     return out
 
 
+def check_window(case, mode):
+    """Poisson mode, 'every entry is drawn independently': one state whose entries share a few means, set up once per
+    seed of a window.  Two entries with the same mean that hold the same count for EVERY seed of the window are not
+    independent draws (for mean m the chance of one coincidence is sum_k p_k^2 < 0.3 for m >= 1.75; 16 coincidences in
+    a row: < 1e-8 per pair, and the window is fixed, so the verdict is the same on every run)."""
+    x = case["state"]
+    ns, nc = case["shape"]
+    ys = []
+    for sd in case["window"]:
+        c = dict(case, seed=sd)
+        c.pop("window")
+        t, d, _, _, _ = t0_record(c, use_probe=False)
+        ys.append(d[0])
+    out = []
+    for a in range(len(x)):
+        for b in range(a + 1, len(x)):
+            if x[a] == x[b] and x[a] >= 1.75 and all(y[a] == y[b] for y in ys):
+                sa, ca = divmod(a, nc)
+                sb, cb = divmod(b, nc)
+                rel = "same-cell-other-species" if ca == cb else ("same-species-other-cell" if sa == sb else "other")
+                out.append(("C14:Poisson:%s:entries-not-independent:%s" % (case["engine"], rel),
+                            "state %r: entries (species %d, cell %d) and (species %d, cell %d) have the same mean %g and hold the "
+                            "same count for every seed in %r: %r" % (x, sa, ca, sb, cb, x[a], case["window"], [(y[a], y[b]) for y in ys])))
+                return out
+    return out
+
+
 def states_for(tier, ns, nc):
     n = ns * nc
     if n <= 2 or (n == 3 and tier == "thorough"):
@@ -174,6 +213,25 @@ def gen_cases(tier, seed0):
                         k += 1
                         yield {"shape": [ns, nc], "state": st, "gtype": gtype, "engine": engine, "isp": isp, "seed": sd,
                                "repeat": (k % 4 == 0) or (ns * nc <= 3 and isp != "none")}
+    # the coarse-graining route (simulate_script with the identity index map) must process the state the same way
+    cg_states = {(1, 3): [[0.5, 0.0, 1.75], [2.0, 99.5, 0.25], [3.0, 0.0, 4.0]],
+                 (2, 2): [[0.5, 1.75, 0.0, 100.0], [1.0, 2.0, 3.0, 0.0], [0.25, 0.25, 0.25, 0.25]]}
+    for (ns, nc), sts in cg_states.items():
+        for st in sts:
+            for engine, isp in combos + [("tauleap", "none"), ("tauleap", "redist")]:
+                if isp == "none" and engine != "euler" and any(v != math.floor(v) for v in st):
+                    continue
+                for sd in seeds:
+                    yield {"shape": [ns, nc], "state": st, "gtype": "grid", "engine": engine, "isp": isp, "seed": sd,
+                           "route": "cgmap", "repeat": False}
+    # independence of the Poisson draws: entries with equal means over a fixed window of 16 seeds
+    window = list(range(16))
+    for (ns, nc), st in (((2, 2), [2.0, 2.0, 2.0, 2.0]), ((2, 3), [1.75, 100.0, 2.0, 1.75, 100.0, 2.0]),
+                         ((3, 2), [150.25, 2.0, 150.25, 2.0, 150.25, 2.0]), ((1, 3), [2.0, 2.0, 2.0])):
+        for gtype in ("grid", "graph"):
+            for engine in ("gillespie", "tauleap", "euler"):
+                yield {"shape": [ns, nc], "state": st, "gtype": gtype, "engine": engine, "isp": "Poisson", "seed": 0,
+                       "window": window, "repeat": False}
 
 
 _CASES = None
@@ -221,7 +279,8 @@ def run(ctx):
         done += job[1] - job[0]
     ctx.subspace("all assignments of the dyadic alphabet {0,1/4,1/2,1,7/4,2,99.5,100,150.25,1000} (<= 3 entries; 8 resp. 6 values for 4 "
                  "entries, 4 resp. 3 values for 6 entries, plus every placement of one large value) to (species,cells) in {(1,1),(1,3),(2,2),(2,3),(3,2)} x "
-                 "{grid,graph} x 9 (engine, processing mode) combinations x seed window", len(_CASES), done,
+                 "{grid,graph} x 9 (engine, processing mode) combinations x seed window; + 6 states x 11 combinations through "
+                 "simulate_script(cgmap=identity); + 4 equal-mean states x {grid,graph} x 3 engines x 16-seed window (independence)", len(_CASES), done,
                  exhaustive=(done == len(_CASES)))
     ctx.rule("one case per (shape, state, space type, engine, mode, seed); non-trivial = state not identically zero; "
              "set-up runs in a supervised worker (60 s limit per chunk, single-case re-run on a hang)")
